@@ -4,6 +4,7 @@ CONTRACT_MODULES = ["contracts.table_rect"]
 FUNCTIONS = ["Table._select_rows", "Table._select_cols", "Table._copy", "Table.__mul__", "Table.__add__", "Table._append_row@rect", "Table._concatenate_table@rect"]
 RAC = "rac/c14.py"
 RAC_BUDGET = {"quick": 60, "thorough": 600}
+RAC_MIN = {"quick": 2553, "thorough": 2553}      # fewer run-time evaluations than this = the harness skipped its work: checker broken, not "held"
 DESIGN_REF = "DESIGN.md section 4, C14"
 TECHNIQUE = ("contract-based deductive verification of the class invariant Rect across the deriving methods every selection goes "
              "through (pyvc rect engine: column lists with object identity, dicts, numpy selection length; z3) + run-time contracts "
